@@ -11,6 +11,7 @@ import (
 
 	zed "github.com/brimdata/super"
 	"github.com/brimdata/super/compiler"
+	"github.com/brimdata/super/compiler/ast"
 	"github.com/brimdata/super/compiler/ast/dag"
 	"github.com/brimdata/super/compiler/data"
 	"github.com/brimdata/super/order"
@@ -115,13 +116,13 @@ func runProgram(zctx *zed.Context, prog string, o runOpts, src *batchSource) (re
 		res.Spills = append([]int(nil), spillLog...)
 		spillLk.Unlock()
 	}()
-	seq, _, err := compiler.Parse(prog)
+	seq, err := parseCached(prog)
 	if err != nil {
 		return runResult{Err: err}
 	}
 	rctx := runtime.NewContext(ctx, zctx)
 	defer rctx.Cancel()
-	job, err := compiler.NewJob(rctx, seq, data.NewSource(storage.NewLocalEngine(), nil), nil)
+	job, err := compiler.NewJob(rctx, seq, data.NewSource(localEngine, nil), nil)
 	if err != nil {
 		return runResult{Err: err}
 	}
@@ -169,6 +170,30 @@ func runProgram(zctx *zed.Context, prog string, o runOpts, src *batchSource) (re
 		batch.Unref()
 		res.Batches = append(res.Batches, vals)
 	}
+}
+
+// NewLocalEngine builds an S3 client (certificate pool) each time: share one.
+var localEngine = storage.NewLocalEngine()
+
+// The PEG parser dominates the cost of a small run; the semantic analyzer
+// does not modify the AST, so parsed programs are shared.
+var (
+	parseMu    sync.Mutex
+	parseCache = map[string]ast.Seq{}
+)
+
+func parseCached(prog string) (ast.Seq, error) {
+	parseMu.Lock()
+	defer parseMu.Unlock()
+	if seq, ok := parseCache[prog]; ok {
+		return seq, nil
+	}
+	seq, _, err := compiler.Parse(prog)
+	if err != nil {
+		return nil, err
+	}
+	parseCache[prog] = seq
+	return seq, nil
 }
 
 func sortKey(name string, desc bool) *order.SortKey {
